@@ -17,7 +17,7 @@ DESIGN_REF = 'DESIGN.md section 5 / C19'
 TECHNIQUE = ('exhaustive enumeration of small public datasets (all multisets of <= 3 records) x measurement alphabets and of two-call histories on the real '
              'PublicInference; weights/frame validity and harness-recomputed loss against the uniformly weighted public data')
 RULE = ('case = (public multiset, private data, structure, query kind, sigma, total mode, history); public datasets: ALL non-empty multisets of <= 3 records '
-        'over the 6 cells of (A:2,B:3) (83), incl. ones disjoint from the private support; structures {A}, {AB}, {A,B}, {AB,B}, {AB,BA}, {BA} and two with exactly repeated cliques (later repeats 40x noisier); kinds identity/prefix; '
+        'over the 6 cells of (A:2,B:3) (83), incl. ones disjoint from the private support; structures {A}, {AB}, {A,B}, {AB,B}, {AB,BA}, {BA} and two with exactly repeated cliques (later repeats 40x noisier); kinds identity/prefix/stacked (histogram + its total)/doubled; '
         'sigma {0.5,2}; totals {1, N, None}, given totals spelled as float/int/numpy scalar types (rotated); histories: second estimate call on the same object (same list object refilled) with two (quick) / three (thorough: prefix kind, sigma 2, totals N/None) other structures (validity clauses). '
         'states = (object, history) nodes, transitions = estimate calls; non-trivial = >= 2 public records; distinct = digest of the case.')
 LEVEL_TEXT = ('Every public dataset of the small scope is reweighted against every measurement configuration of the alphabet; the returned weights must be '
